@@ -217,6 +217,13 @@ def oracle(ctx, extra):
             for _ in range(2):
                 check(w, sample_cfg(r), doc, fails, limit)
                 n += 1
+            if i % 25 == 0:
+                # conversion with a file context (Markdown.read): include directives with every kind of target and encoding
+                style = r.choice(["fenced", "rst"])
+                dist["file-context"] = dist.get("file-context", 0) + 1
+                check(w, {"renderer": r.choice(["html", "ast"]), "plugins": r.sample(P, 3), "directives": style, "filectx": True,
+                          "escape": r.random() < 0.6}, gen_docs.include_doc(r, style), fails, limit)
+                n += 1
             if len([f for f in fails if not f.get("class")]) >= 5:
                 break
     finally:
@@ -229,7 +236,7 @@ def oracle(ctx, extra):
                     "emphasis, brackets, alternating link/image, code ticks, angle brackets, indentation staircases of block markers, RST/colon/backtick directives, "
                     "formatting plugins, repeated units of every inline plugin syntax (up to 3200 adjacent tokens), def lists and tables; depth/length 8-400), 12% generated documents with hostile code "
                     "points inserted (controls, line/paragraph separators, BOM, non-characters, combining, bidi, astral), 3% lone "
-                    "surrogates, 12% noise up to 200 tokens, 13% interrupt/lazy fragments; each document under 2 sampled "
+                    "surrogates, 12% noise up to 200 tokens, 13% interrupt/lazy fragments; every 25th iteration a document of include directives converted with a file context (Markdown.read; text, Markdown, HTML, empty, BOM, Latin-1, UTF-16, nested, missing and self targets x valid, unknown and mismatching encodings); each document under 2 sampled "
                     "configurations (renderer html/ast/rst/markdown, escape, hard_wrap, random plugin subset incl. speedup, "
                     "directive style, add_toc_hook, mistune.html, mistune.markdown()) in one long-lived worker with a per-document wall limit",
             "samples": [json.dumps(pumps(ctx.rng('s')))[:120], json.dumps(sample_cfg(ctx.rng('t')))]}
